@@ -32,6 +32,7 @@ pub fn idle_oracle() {
                 u += 1;
             }
             vassert!(blocked, "C05: stream pending without wake-up although every predecessor FnRef of an unyielded function was dropped");
+            vassert!(blocked, "C06: stream idle although a function whose predecessors all returned has not been handed out");
         }
         v += 1;
     }
@@ -65,6 +66,7 @@ macro_rules! stream_step {
             }
             Poll::Ready(None) => {
                 vassert!(all_yielded, "C05: stream ended before every function was yielded");
+                vassert!(all_yielded, "C03: stream ended without every function handed out exactly once");
                 $ended = true;
             }
             Poll::Pending => {
@@ -128,7 +130,7 @@ pub fn h_stream_bounded(n: usize, shape: Option<&[(u8, u8, u8)]>, rev: Option<bo
             #[cfg(not(any(feature = "n2", feature = "n4")))]
             stream_steps!(stream, cx, held, ended, drops, [1 2 3 4 5 6 7]);
         }
-        vcover!(ended, "stream ended with None");
+        vcover!(ended, "reach: stream ended with None");
         vcover!(ended && st().polls as usize > st().n + 1, "stream ended after at least one pending poll");
         // The stream is dropped here, possibly before the refs still held.
     }
